@@ -17,14 +17,17 @@ pub struct Plan {
 
 pub fn plan(prop: &str, tier: Tier) -> Plan {
     let (q, t) = match prop {
-        "C05" | "C06" | "C08" | "C07" | "C09" | "C10" | "C13" | "C15" | "C14" => (200_000, 5_000_000),
-        "C12" => (40_000, 1_000_000),
+        "C05" | "C06" => (300_000, 8_000_000),
+        "C07" | "C08" | "C09" | "C10" | "C15" | "C14" => (200_000, 5_000_000),
+        "C13" => (400_000, 8_000_000),
+        "C12" => (250_000, 5_000_000),
         "C16" => (150_000, 3_000_000),
         "C03" => (100_000, 1_500_000),
         "C04" => (80_000, 2_000_000),
-        "C01" | "C02" => (40_000, 800_000),
-        "C11" => (3_000, 60_000),
-        "C17" => (40_000, 800_000),
+        "C01" => (300_000, 4_000_000),
+        "C02" => (150_000, 3_000_000),
+        "C11" => (4_000, 40_000),
+        "C17" => (300_000, 6_000_000),
         _ => (10_000, 100_000),
     };
     Plan { random_runs: if tier == Tier::Quick { q } else { t } }
